@@ -317,9 +317,7 @@ def validate(seed, tier):
         q0 = rng.integers(-1, 2, size=m); q1 = rng.integers(-1, 2, size=nn)
         A = np.where(np.add.outer(q0, -q1) == 0, rng.standard_normal((m, nn)), 0.0)
         tol = float(rng.choice([0.0, 0.05, 0.3, 0.7]))
-        f = concrete.CHECKS['svd_split'](dict(A=A.tolist(), q0=q0.tolist(), q1=q1.tolist(), tol=tol))
-        if f:
-            raise runner.HarnessError(f'concrete SVD-split check fails on the unchanged tree: {f}')
+        runner.concrete_check('svd_split', dict(A=A.tolist(), q0=q0.tolist(), q1=q1.tolist(), tol=tol))
         n += 1
     # SVD contract against LAPACK
     for trial in range(5):
